@@ -91,7 +91,7 @@ func (c *Collection) CreateIndex(indexName string, expression string, filterExpr
 	stmt := fmt.Sprintf(`CREATE INDEX %s ON documents (id, %s) WHERE collection=%d AND value NOT NULL`,
 		indexName, expression, c.id)
 	if filterExpression != "" {
-		stmt += ` AND ` + filterExpression
+		stmt += ` AND (` + filterExpression + `)` // (a top-level OR in the filter must not undo the restriction to this collection)
 	}
 	_, err = c.db().Exec(stmt)
 	if err != nil && strings.Contains(err.Error(), "already exists") {
